@@ -432,6 +432,49 @@ def rule_r5(rep, program: Program):
     return r
 
 
+def wrapper_cross_call_state(program: Program):
+    """Stores made by the cache wrappers into objects that outlive a call other than the ChainState:
+    containers / names of the enclosing decorator scope, module globals, attributes of the system.
+    Returns [(decorator name, node, description)]."""
+    out = []
+    for dname in ("cache_in_state", "cache_in_state_with_aux"):
+        d = program.func("states", dname)
+        wrappers = [n for n in ast.walk(d.node) if isinstance(n, ast.FunctionDef) and n.name == "wrapper"]
+        if len(wrappers) != 1:
+            raise AnalysisError(f"{dname}: wrapper function not found")
+        w = wrappers[0]
+        params = {a.arg for a in w.args.posonlyargs + w.args.args + w.args.kwonlyargs}
+        local = set(params)
+        for n in ast.walk(w):
+            if isinstance(n, ast.Name) and isinstance(n.ctx, ast.Store):
+                local.add(n.id)
+        nonlocal_decl = {nm for n in ast.walk(w) if isinstance(n, (ast.Nonlocal, ast.Global)) for nm in n.names}
+        local -= nonlocal_decl
+        state_p = [a.arg for a in w.args.args][1] if len(w.args.args) > 1 else "state"
+        self_p = [a.arg for a in w.args.args][0] if w.args.args else "self"
+
+        def root(e):
+            while isinstance(e, (ast.Subscript, ast.Attribute)):
+                e = e.value
+            return e.id if isinstance(e, ast.Name) else None
+
+        for n in ast.walk(w):
+            tgts = n.targets if isinstance(n, ast.Assign) else [n.target] if isinstance(n, (ast.AugAssign, ast.AnnAssign)) else []
+            for t in tgts:
+                for tt in (t.elts if isinstance(t, ast.Tuple) else [t]):
+                    if isinstance(tt, ast.Name) and tt.id in nonlocal_decl:
+                        out.append((dname, n, f"assigns the enclosing-scope name `{tt.id}`"))
+                    if isinstance(tt, (ast.Subscript, ast.Attribute)):
+                        rt = root(tt)
+                        if rt is not None and rt != state_p and (rt not in local or rt == self_p):
+                            out.append((dname, n, f"stores into `{norm(tt)[:40]}`, which persists between calls ({'the system object' if rt == self_p else 'enclosing scope'})"))
+            if isinstance(n, ast.Call) and isinstance(n.func, ast.Attribute) and n.func.attr in ("append", "extend", "update", "add", "setdefault", "pop", "insert", "clear"):
+                rt = root(n.func.value)
+                if rt is not None and rt != state_p and (rt not in local or rt == self_p):
+                    out.append((dname, n, f"mutates `{norm(n.func.value)[:40]}`, which persists between calls"))
+    return out
+
+
 def rule_r6(rep, program: Program):
     r = rep.rule("R6", "decorator protocol: cache key identifies class, method and system object; every stored key is registered under every declared dependency; the miss test recognises the invalidation marker", floor=6)
     kf = program.func("states", "_cache_key_func")
@@ -486,6 +529,12 @@ def rule_r6(rep, program: Program):
         r.inst({"decorator": dname, "miss test": tests, "invalidation marker": marker})
         if marker == "None" and tests and not any("is None" in t for t in tests):
             r.violate(PROP, f"{dname}.wrapper:marker-not-recognised", "__setattr__ invalidates an entry by storing None, but the wrapper's miss test does not treat a None entry as missing: the invalidated entry (None) is returned", node=w, file=d.file)
+    # the wrappers keep nothing between calls except in the ChainState: cache keys contain id(system),
+    # so anything remembered per class / per decorator is wrong for the next system object
+    cross = wrapper_cross_call_state(program)
+    r.inst({"cross-call state in the wrappers": [c[2] for c in cross]})
+    for dname, node, what in cross:
+        r.violate(PROP, f"{dname}.wrapper:cross-call-state:{norm(node)[:40]}", f"the {dname} wrapper {what}: cache keys identify the system object (id(system)), so keys or values remembered across calls are those of whichever system called first - another system object of the same class then reads and writes the wrong cache entries", node=node, file=program.func("states", dname).file)
     return r
 
 
